@@ -338,6 +338,8 @@ class SimCluster:
                 {"partition": p["partition"], "error_code": code} for p in t["partitions"]]}
                 for t in obj["topics"]]}
         if name == "OffsetFetch":
+            if cls.API_VERSION >= 2:
+                return {"topics": [], "error_code": code}     # Kafka's shape since v2
             return {"topics": [{"topic": t["topic"], "partitions": [
                 {"partition": p, "offset": -1, "metadata": "", "error_code": code}
                 for p in t["partitions"]]} for t in (obj["topics"] or [])], "error_code": code}
